@@ -55,6 +55,7 @@ var ipSeq atomic.Uint32
 // the block is claimed by binding (and keeping) a UDP lock socket on 127.B.C.254:49999.
 func NextIPBlock() string {
 	pid := uint32(os.Getpid())
+	var lastErr error
 	for try := 0; try < 2000; try++ {
 		n := ipSeq.Add(1)
 		b := 64 + (pid+n/250)%180
@@ -62,15 +63,36 @@ func NextIPBlock() string {
 		block := fmt.Sprintf("127.%d.%d.", b, c)
 		l, err := net.ListenPacket("udp", block+"254:49999")
 		if err != nil {
+			lastErr = err
 			continue
 		}
-		blockLocks = append(blockLocks, l) // held until the process exits
+		blockMu.Lock()
+		blockLocks[block] = l // held until FreeIPBlock or the process exits
+		blockMu.Unlock()
 		return block
 	}
-	panic("vfe2e: no free 127.x.y.0/24 block")
+	// a resource problem of the machine (descriptors, sockets), not a verdict about the proxy
+	fmt.Printf("VERIF-INCONCLUSIVE: no free 127.x.y.0/24 block for the harness (last error: %v)\n", lastErr)
+	os.Exit(3)
+	return ""
 }
 
-var blockLocks []net.PacketConn
+var (
+	blockMu    sync.Mutex
+	blockLocks = map[string]net.PacketConn{}
+)
+
+// FreeIPBlock gives a block back (tests that take a block per generated case call it when the case is over, so that
+// long runs do not use up the address space or the descriptors).
+func FreeIPBlock(block string) {
+	blockMu.Lock()
+	l := blockLocks[block]
+	delete(blockLocks, block)
+	blockMu.Unlock()
+	if l != nil {
+		l.Close()
+	}
+}
 
 type ProxyOpts struct {
 	Race       bool
